@@ -95,7 +95,7 @@ Section Spec.
   (** every record but the first hangs on a record of the same list, by a tree edge, with that edge's order *)
   Definition par_ok (t : rtree) (fl : list frec) (r : frec) : Prop :=
     exists r', In r' fl /\ f_par r = Some (f_old r', f_new r') /\ In (f_old r', f_old r) (redges t)
-               /\ f_pend r = oord (esym (f_old r') (f_old r)).
+               /\ f_pend r = oord (esym (f_old r') (f_old r)) /\ f_new r' < f_new r.
   Definition Tp (t : rtree) : Prop := forall mk next par pend r,
     In r (tl (fst (tflat mk next par pend t))) -> par_ok t (fst (tflat mk next par pend t)) r.
 
@@ -111,17 +111,18 @@ Section Spec.
     - rewrite tflat_unfold in *. cbv zeta in *. destruct (ring_items mk (rlist k)) as [mk1 rs].
       set (rec0 := (k, next, par, pend, rs) : frec).
       (* a record of a child subtree *)
-      assert (Child : forall c mk' n' fl', In c (c1 :: bs) -> Tp c ->
+      assert (Child : forall c mk' n' fl', In c (c1 :: bs) -> Tp c -> next < n' ->
                 (forall x, In x (fst (tflat mk' n' (Some (k, next)) (oord (esym k (rkey c))) c)) -> In x fl') -> In rec0 fl' ->
                 forall x, In x (fst (tflat mk' n' (Some (k, next)) (oord (esym k (rkey c))) c)) ->
                           par_ok (RNode k (c1 :: bs)) fl' x).
-      { intros c mk' n' fl' Hc Hpc Hsub H0 x Hx.
+      { intros c mk' n' fl' Hc Hpc Hn' Hsub H0 x Hx.
         destruct (tflat_head c mk' n' (Some (k, next)) (oord (esym k (rkey c)))) as [rs' [rest' E]].
         rewrite E in Hx. destruct Hx as [<-|Hx].
-        - exists rec0. split; [exact H0|split; [reflexivity|split; [now apply redges_root|reflexivity]]].
+        - exists rec0. split; [exact H0|split; [reflexivity|split; [now apply redges_root|split; [reflexivity|]]]].
+          cbn [f_new fst snd rec0]. exact Hn'.
         - assert (Hx' : In x (tl (fst (tflat mk' n' (Some (k, next)) (oord (esym k (rkey c))) c)))) by (rewrite E; exact Hx).
-          destruct (Hpc mk' n' (Some (k, next)) (oord (esym k (rkey c))) x Hx') as [r' (A1 & A2 & A3 & A4)].
-          exists r'. split; [now apply Hsub|split; [exact A2|split; [now apply (redges_child k (c1 :: bs) c)|exact A4]]]. }
+          destruct (Hpc mk' n' (Some (k, next)) (oord (esym k (rkey c))) x Hx') as [r' (A1 & A2 & A3 & A4 & A5)].
+          exists r'. split; [now apply Hsub|split; [exact A2|split; [now apply (redges_child k (c1 :: bs) c)|split; [exact A4|exact A5]]]]. }
       assert (B : forall l, (forall c, In c l -> In c (c1 :: bs)) -> Forall Tp l -> forall fl',
                   (forall x, In x (fst (bflat k next mk1 l)) -> In x fl') -> In rec0 fl' ->
                   forall x, In x (fst (bflat k next mk1 l)) -> par_ok (RNode k (c1 :: bs)) fl' x).
@@ -131,7 +132,7 @@ Section Spec.
         cbn [fst] in *. apply in_app_or in Hx as [Hx|Hx].
         - apply (IHr (fun c0 H => Hsubl c0 (or_intror H)) (Forall_inv_tail Hl) fl'); [|exact H0|exact Hx].
           intros y Hy. apply Hsub. apply in_or_app. now left.
-        - apply (Child c mk2 (next + 1 + Z.of_nat (length (flat_map rkeys r'))) fl' (Hsubl c (or_introl eq_refl)) (Forall_inv Hl)); rewrite ?E1; cbn [fst].
+        - apply (Child c mk2 (next + 1 + Z.of_nat (length (flat_map rkeys r'))) fl' (Hsubl c (or_introl eq_refl)) (Forall_inv Hl) ltac:(lia)); rewrite ?E1; cbn [fst].
           + intros y Hy. apply Hsub. apply in_or_app. now right.
           + exact H0.
           + exact Hx. }
@@ -141,6 +142,6 @@ Section Spec.
       destruct (tflat mkb (next + 1 + Z.of_nat (length (flat_map rkeys bs))) (Some (k, next)) (oord (esym k (rkey c1))) c1) as [lc mkc].
       cbn [fst tl] in *. apply in_app_or in Hr as [Hr|Hr].
       + apply Bb; [|now left|exact Hr]. intros y Hy. right. apply in_or_app. now left.
-      + apply (Cc _ (or_introl eq_refl) (Forall_inv IH)); [|now left|exact Hr]. intros y Hy. right. apply in_or_app. now right.
+      + apply (Cc _ (or_introl eq_refl) (Forall_inv IH) ltac:(lia)); [|now left|exact Hr]. intros y Hy. right. apply in_or_app. now right.
   Qed.
 End Spec.
